@@ -224,6 +224,14 @@ def check(case):
         import io
 
         with contextlib.redirect_stdout(io.StringIO()):  # progress reports are printed
+            if case.get("warm_refit"):
+                # a warm-started estimator is fitted a second time: the second fit runs the documented schedule again
+                # (steps and callbacks numbered from 1), continuing from the trained networks
+                est.warm_start = True
+                est.fit(X, AC.wrap(yv, kind), sensitive_features=AC.wrap(av, kind))
+                del calls[:], bad_kwargs[:]
+                if rec is not None:
+                    del rec.log[:]
             ret = est.fit(X, AC.wrap(yv, kind), sensitive_features=AC.wrap(av, kind))
     except RuntimeError as e:
         if "between 0 and 1" in str(e):
@@ -250,7 +258,7 @@ def check(case):
     raw = est._raw_predict(Xtest)
     if _first_slice_complete(case, exp_steps):
         twin, _ = _build(case, None)
-        for k, (lo, hi) in enumerate(exp_steps):
+        for k, (lo, hi) in enumerate(list(exp_steps) * (2 if case.get("warm_refit") else 1)):
             kw = {}
             if (k == 0 or case.get("classes_every_call")) and case.get("pass_classes") and ycol["type"] != "cont":
                 kw["classes"] = np.asarray(sorted(AC.LABELS[ycol["enc"]]))
@@ -315,6 +323,8 @@ def check(case):
         tags.append("epochs-1")
     if case.get("plateau") and len(exp_steps) >= 3:
         tags.append("plateau>=3_steps")
+    if case.get("warm_refit"):
+        tags.append("warm_started_second_fit")
     if case["batch_size"] == -1 or bs >= n:
         tags.append("one_batch")
     if bs == 1:
@@ -449,6 +459,7 @@ def _cases(draw):
         "pass_classes": draw(st.booleans()),
         "classes_every_call": draw(st.booleans()),
         "progress_updates": draw(st.sampled_from([None, None, 1e-9, 1e-7, 0.5])),
+        "warm_refit": draw(st.integers(0, 4)) == 0,
     }
 
 
